@@ -150,6 +150,17 @@ def run(rep, tier, root=None):
         args = I.symbolic_args(f, flags, fixed={"min_threshold": zero})
         forms[f.name] = (f, I.returns(f, args), I)
 
+    # ---------------------------------------------------------------- frames are processed independently
+    for name, (f, rets, I) in sorted(forms.items()):
+        hits = [e for e in I.alias_log if e[5] == "loop"]
+        for fq_, lineno, tname, sname, text, _ in hits:
+            rep.violation("H2.frames-independent", "%s: `%s` updates `%s` in the frame loop" % (fq_, text[:60], sname),
+                          "`%s` is bound to the same array as `%s` (plain assignment, no copy); the in-place update changes `%s`, "
+                          "which the next frame reads again: frame k is processed with data from frames < k, so a stack does "
+                          "not give the centroids of its frames" % (tname, sname, sname), "%s:%d" % (f.module.relpath, lineno))
+        if not hits:
+            rep.ok("H2.frames-independent", f.fq, "no array from outside a frame loop is updated in place through a second name")
+
     # ---------------------------------------------------------------- H1
     targets = {"centre_of_gravity": ["img"], "brightest_pixel": ["img"], "quadCell": ["img"],
                "correlation_centroid": ["im", "ref"], "cross_correlate": []}
